@@ -1163,8 +1163,17 @@ func (el edgeList) Less(i, j int) bool {
 
 	to1 := el[i].Dest.Info.PrintableName()
 	to2 := el[j].Dest.Info.PrintableName()
+	if to1 != to2 {
+		return to1 < to2
+	}
 
-	return to1 < to2
+	// Distinct nodes may print alike (e.g. same function name with different
+	// start lines or object files); fall back to the full node info so that
+	// the order does not depend on map iteration.
+	if from1, from2 := fmt.Sprint(el[i].Src.Info), fmt.Sprint(el[j].Src.Info); from1 != from2 {
+		return from1 < from2
+	}
+	return fmt.Sprint(el[i].Dest.Info) < fmt.Sprint(el[j].Dest.Info)
 }
 
 func (el edgeList) Swap(i, j int) {
